@@ -29,6 +29,7 @@ import (
 	"runtime"
 	"strconv"
 	"strings"
+	"time"
 
 	"github.com/blinklabs-io/gouroboros/cbor"
 	"github.com/blinklabs-io/gouroboros/ledger"
@@ -36,7 +37,8 @@ import (
 )
 
 func init() {
-	register(&Prop{ID: "C02", Gen: genC02, Run: runC02})
+	// generous per-op deadline: a verdict must not depend on machine load (a genuine loop never returns)
+	register(&Prop{ID: "C02", Gen: genC02, Run: runC02, Timeout: 120 * time.Second})
 }
 
 func c02Typed(entry string, b []byte) (bool, bool) { // (known entry, ok)
